@@ -390,11 +390,29 @@ func (s *SwapData) GetCancelMessage() string {
 		return s.LastErr.Error()
 	}
 
+	// LastErr itself is not persisted; after a reload its text is what was
+	// stored in LastErrString.
+	if s.LastErrString != "" {
+		return s.LastErrString
+	}
+
 	if s.CancelMessage != "" {
 		return s.CancelMessage
 	}
 
 	return ""
+}
+
+// MarshalJSON stores the text of LastErr (which cannot be serialised itself)
+// in LastErrString, so that the reason a swap failed survives a restart no
+// matter which code path set LastErr.
+func (s SwapData) MarshalJSON() ([]byte, error) {
+	type plainSwapData SwapData
+	p := plainSwapData(s)
+	if p.LastErr != nil {
+		p.LastErrString = p.LastErr.Error()
+	}
+	return json.Marshal(p)
 }
 
 func (s *SwapData) GetPrivkey() *btcec.PrivateKey {
